@@ -97,6 +97,22 @@ out = (samples, logps)
              key="flat-width-guard", detail="; ".join(show_term(g, 100) for g in guards))
 
 
+def check_thin_wrappers(s, rule="C15.1"):
+    """The distribution classes are thin wrappers: sample / log_prob / mode / entropy / ... are the wrapped law's own (the forwarding of
+    the base class is C15.1 `delegation`), and no class other than the product law and the transformed base re-implements one of them -
+    a private `sample` next to an inherited `log_prob` is how a class comes to sample from one law and score another."""
+    P = s.prog
+    allowed_overrides = {"MultiCategorical": set(METHODS), "AbstractTransformedDistribution": {"mode"}}
+    n = 0
+    for ci in P.subclasses("AbstractDistreqxWrapper"):
+        for meth in METHODS:
+            ok = not (meth in ci.methods and meth not in allowed_overrides.get(ci.name, set()))
+            s.ob(rule, f"{ci.name}.{meth}", ok, "thin wrappers do not override the forwarded methods", P.loc(ci.module, ci.methods[meth]) if meth in ci.methods else P.loc(ci.module, ci.node),
+                 key="unexpected-override", necessary_for="a policy samples from the same distribution whose log-probability it reports")
+            n += 1
+    return n
+
+
 def check(s):
     P = s.prog
     self_ = ("param", "self")
@@ -111,14 +127,8 @@ def check(s):
         s.ob("C15.1", f"AbstractDistreqxWrapper.{meth}", p.ret == want or (alt is not None and p.ret == alt),
              f"{meth} forwards to self.distribution.{meth}({arg or ''})", s.loc("AbstractDistreqxWrapper", meth), key="delegation", detail=show(p.ret, maxlen=160),
              necessary_for="prob = exp(log_prob), samples, mode and entropy are those of the wrapped law")
-    allowed_overrides = {"MultiCategorical": set(METHODS), "AbstractTransformedDistribution": {"mode"}}
+    n = check_thin_wrappers(s, "C15.1")
     wrappers = P.subclasses("AbstractDistreqxWrapper")
-    n = 0
-    for ci in wrappers:
-        for meth in METHODS:
-            if meth in ci.methods and meth not in allowed_overrides.get(ci.name, set()):
-                s.ob("C15.1", f"{ci.name}.{meth}", False, "thin wrappers do not override the forwarded methods", P.loc(ci.module, ci.methods[meth]), key="unexpected-override")
-            n += 1
     s.ob("C15.1", "wrapper-classes", len([c for c in P.concrete_exported("lerax.distribution")]) >= 7 and n >= 35,
          "the seven exported distribution classes are covered", "", key="class-count", detail=f"{len(wrappers)} wrapper subclasses")
     check_product_law(s)
